@@ -600,7 +600,7 @@ class Event:
 class Interp:
     """Abstract interpreter of one function (with bounded inlining of repository helpers)."""
 
-    def __init__(self, prog, inline=None, no_inline=(), max_depth=8, opaque_self_methods=(), inline_all_repo=False, copy_is_identity=True):
+    def __init__(self, prog, inline=None, no_inline=(), max_depth=8, opaque_self_methods=(), inline_all_repo=False, copy_is_identity=True, commutative=()):
         self.prog = prog
         self.inline = set(inline or ())  # extra qualname suffixes to inline
         self.no_inline = set(no_inline)
@@ -610,6 +610,7 @@ class Interp:
         self.inline_all_repo = inline_all_repo
         self.opaque_self_methods = set(opaque_self_methods)
         self.copy_is_identity = copy_is_identity
+        self.commutative = set(commutative)
         self.loop_doms = []
         self.paths = []
         self.notes = []
@@ -721,6 +722,10 @@ class Frame:
             # `x.m(args)` as a statement on a locally created opaque object is called for its effect:
             # rebind the local to the updated object, so that later uses see that it was edited
             c = s.value
+            if (isinstance(c, ast.Call) and isinstance(c.func, ast.Attribute) and isinstance(c.func.value, ast.Name)
+                    and isinstance(st.env.get(c.func.value.id), AList) and c.func.attr in ("sort", "reverse") and not c.args):
+                # in-place reordering of a list: the local now denotes the reordered sequence
+                st.env[c.func.value.id] = Poly.atom(("call", "sorted" if c.func.attr == "sort" else "reversed", (vkey(st.env[c.func.value.id]),), tuple(sorted(((k.arg, vkey(self.eval(k.value, st))) for k in c.keywords), key=_k))))
             if (isinstance(c, ast.Call) and isinstance(c.func, ast.Attribute) and isinstance(c.func.value, ast.Name)
                     and c.func.value.id in st.env and isinstance(r, Poly)):
                 a = r.as_atom()
@@ -1288,6 +1293,9 @@ class Frame:
             for k, v in kwargs.items():
                 d.items[("const", repr(k))] = (k, v)
             return d
+        if dotted in ("frozenset", "set") and len(args) == 1 and not kwargs and isinstance(args[0], (AList, ATuple)):
+            # a set is insensitive to the order (and multiplicity) of its elements
+            return Poly.atom(("call", dotted, tuple(sorted({vkey(i) for i in args[0].items}, key=_k)), ()))
         if dotted == "list" and not args:
             return AList()
         if (name in IDENTITY_CALLS or dotted in IDENTITY_CALLS) and len(args) == 1 and not kwargs.keys() - {"dtype", "order"}:
@@ -1422,6 +1430,9 @@ class Frame:
 
     def opaque_call(self, name, args, kwargs, st, node):
         self.I.events.append(Event(name, args, kwargs, st.guards, node))
+        if name in self.I.commutative and len(args) >= 2:
+            a0, a1 = sorted(args[:2], key=lambda x: _k(vkey(x)))
+            args = [a0, a1] + list(args[2:])
         return Poly.atom(("call", name, tuple(vkey(a) for a in args), tuple(sorted(((k, vkey(v)) for k, v in kwargs.items()), key=_k))))
 
     def opaque_mcall(self, name, recv, args, kwargs, st, node):
